@@ -214,6 +214,7 @@ func c07Run(c *Ctx) {
 	}
 	c07RunText(c)
 	c07RunBig(c)
+	c07RunHist(c) // c07_hist.go
 }
 
 // c07BigDocs: a pair of documents that differ at MANY positions (about 260-700 modifications): 4-12 groups of scalar
@@ -784,6 +785,8 @@ func c07Render(ms []diff.Modification) string {
 
 func c07Eval(c *Ctx, kind string, raw []byte) {
 	switch kind {
+	case "afterfail":
+		c07EvalAfterFail(c, raw) // c07_hist.go
 	case "pair":
 		var p c07Pair
 		if err := json.Unmarshal(raw, &p); err != nil {
